@@ -19,6 +19,7 @@ type DefParser struct {
 	workerNumber int
 	workerQueue  []chan *entity.TaskInstance
 	workerWg     sync.WaitGroup
+	senderWg     sync.WaitGroup // the goroutines that wait for room in a full worker queue
 	taskTrees    sync.Map
 	taskTimeout  time.Duration
 
@@ -340,7 +341,18 @@ func (p *DefParser) sendToChannel(mod int, taskIns *entity.TaskInstance, newRout
 	case p.workerQueue[mod] <- taskIns:
 	// if queue is full, we can do it in a new goroutine to prevent deadlock
 	default:
-		go p.sendToChannel(mod, taskIns, false)
+		// the goroutine must not hold the read lock while it waits for room: a pending Close
+		// would then keep the worker that has to drain the queue from entering a task again.
+		// Close signals closeCh first and only closes the queues when these senders are gone.
+		p.senderWg.Add(1)
+		go func() {
+			defer p.senderWg.Done()
+			select {
+			case p.workerQueue[mod] <- taskIns:
+			case <-p.closeCh:
+				log.Info("parser has already closed, so will not execute next task instances")
+			}
+		}()
 	}
 }
 
@@ -513,13 +525,16 @@ func (p *DefParser) Close() {
 	default:
 	}
 	close(p.closeCh)
-	for i := range p.workerQueue {
-		close(p.workerQueue[i])
-	}
-	// the write lock only protects closing the channels: a worker that drains its queue may
+	// the write lock only protects the closed mark: a worker that drains its queue may
 	// have to enter a task again (a pre-check that skips or blocks it), which takes the read
 	// lock - waiting for the workers while holding the write lock would deadlock
 	p.lock.Unlock()
+	// nobody sends any more: senders check closeCh under the read lock, and those that were
+	// waiting for room in a full queue give up on closeCh
+	p.senderWg.Wait()
+	for i := range p.workerQueue {
+		close(p.workerQueue[i])
+	}
 	p.workerWg.Wait()
 }
 
